@@ -5,7 +5,7 @@ LEVEL = "proof"
 
 
 def run(chk):
-    build, oracle, tables = emucheck.setup(chk, extra_units=("guards",))
+    build, oracle, tables = emucheck.setup(chk, extra_units=("guards", "chan", "sys"))
     chk.assumptions = ["histories: OH* events with valid payloads; whether a dead thread may execute again is left open by the "
                        "documentation: the spec allows it like the emulator does, nothing is demanded either way",
                        "distinct clocks per event (merging of equal clocks is C03's concern)"]
